@@ -27,6 +27,7 @@ type c05Case struct {
 	MidOps []string       `json:"midOps,omitempty"` // ... and these operations (on the same tree, or "other-<op>" on another tree) run after that, before the walk
 	Nest   int            `json:"nest,omitempty"`      // iterator entries: k>0 = a second walk of the same tree runs while the first is at visit k-1
 	NestBr bool           `json:"nestBreak,omitempty"` // ... and is left after its first visit
+	Facts  int            `json:"facts,omitempty"`     // k>0: the facts of a visited node are read in the (k-1)-th permutation of their declared order (ops.Case.FactOrder)
 	CbErr  int            `json:"cbErr,omitempty"`     // callback entries: which error value the callback returns (ops.CallbackErr)
 }
 
@@ -38,6 +39,7 @@ func c05Check(c c05Case) string {
 	cs := ops.NewCase("walk", "md")
 	cs.Opts.Branch = c.Branch
 	cs.Faults.CbErrKind = c.CbErr
+	cs.FactOrder = c.Facts
 	switch c.Entry {
 	case "md", "mdalias":
 		cs.Entry = c.Entry
@@ -176,7 +178,7 @@ func c05Record(col *collector, c c05Case) {
 	if d := model.Merge(c.Forest).Depth(); d >= 18 {
 		cl = append(cl, "depth>=18")
 	}
-	col.eval(nontrivial, hash64(c.Forest.String(), c.Entry, fmt.Sprint(c.Branch, c.StopAt, c.PreOps, c.Late, c.Twice, c.CbErr, c.Nest, c.NestBr, c.Grow, c.MidOps), model.Spell(c.Forest, c.Sp)), cl...)
+	col.eval(nontrivial, hash64(c.Forest.String(), c.Entry, fmt.Sprint(c.Branch, c.StopAt, c.PreOps, c.Late, c.Twice, c.CbErr, c.Nest, c.NestBr, c.Grow, c.MidOps, c.Facts), model.Spell(c.Forest, c.Sp)), cl...)
 	col.sample(func() any {
 		return map[string]any{"forest": c.Forest.String(), "entry": c.Entry, "stopAt": c.StopAt, "branch": c.Branch}
 	})
@@ -205,6 +207,9 @@ func TestC05Exhaustive(t *testing.T) {
 					sp = model.Plain2
 				}
 				c := c05Case{Forest: f, Entry: e, Branch: branchPanel[rot%len(branchPanel)], StopAt: k, Sp: sp, Twice: rot%2 == 0, CbErr: (rot / 2) % 8}
+				if rot%2 == 1 {
+					c.Facts = 1 + (rot*7)%720 // every other case reads the node facts in another order
+				}
 				if strings.HasPrefix(e, "iter") && rot%3 == 0 {
 					c.Nest, c.NestBr = 1+rot%n, rot%2 == 1
 				}
@@ -251,6 +256,9 @@ func c05Gen() *rapid.Generator[c05Case] {
 				c.Grow = rapid.IntRange(1, 3).Draw(t, "grow")
 				c.MidOps = rapid.SliceOfN(rapid.SampledFrom([]string{"json", "yaml", "toml", "other-output", "other-walk", "other-json", "output-massive", "other-dryrun"}), 0, 2).Draw(t, "midOps")
 			}
+		}
+		if rapid.Bool().Draw(t, "permuteFacts") {
+			c.Facts = rapid.IntRange(1, 720).Draw(t, "facts")
 		}
 		c.Twice = strings.HasPrefix(entry, "iter") && rapid.IntRange(0, 2).Draw(t, "twice") == 0
 		if !strings.HasPrefix(entry, "iter") && c.StopAt >= 0 {
